@@ -2,7 +2,7 @@
    parse tree says: every comparison with its operator and negation, every
    constant, every path step, every qualifier, and the grouping.             *)
 From Coq Require Import NArith ZArith List String Bool Lia.
-From V Require Import Model.PatternSyntax Proofs.PatternNumbers Proofs.PatternLit Proofs.PatternPath
+From V Require Import Model.PatternSyntax Spec.PatternSpec Proofs.PatternR Proofs.PatternNumbers Proofs.PatternLit Proofs.PatternPath
   Proofs.PatternCmp Proofs.PatternObs Proofs.PatternEscape.
 Import ListNotations.
 Open Scope N_scope.
@@ -60,13 +60,13 @@ Proof.
   intros t Hk Hs. pose proof (visit_lit t Hk Hs) as V.
   unfold kind_in in Hk. apply andb_true_iff in Hk. destruct Hk as [Hk Hok].
   destruct t as [k s]. unfold token_ok in Hok. unfold lit_sem in Hs. unfold m_tok. cbn [tk tx] in *.
-  destruct k; cbn in Hk; try discriminate; unfold visit_terminal in V; cbn [tk tx] in V.
+  destruct k; cbn in Hk; try discriminate; unfold PatternSyntax.visit_terminal in V; cbn [tk tx] in V.
   - destruct (py_int s); [|discriminate]. inversion V as [E]. try rewrite <- E. reflexivity.
   - destruct (py_int s); [|discriminate]. inversion V as [E]. try rewrite <- E. reflexivity.
   - destruct (py_float s); [|discriminate]. inversion V as [E]. try rewrite <- E. reflexivity.
   - destruct (py_float s); [|discriminate]. inversion V as [E]. try rewrite <- E. reflexivity.
-  - unfold mk_hex_from_tree in V. destruct (prefixed_body 104 s) as [b|]; [|discriminate].
-    destruct (negb (is_nil b) && hex_pairs b); [|discriminate]. inversion V as [E]. try rewrite <- E. reflexivity.
+  - rewrite mk_hex_rep in V. destruct (prefixed_body 104 s) as [b|]; [|discriminate].
+    destruct (hex_pairs b); [|discriminate]. inversion V as [E]. try rewrite <- E. reflexivity.
   - unfold mk_binary_from_tree in V. destruct (prefixed_body 98 s) as [b|]; [|discriminate].
     destruct (b64_groups b); [|discriminate]. inversion V as [E]. try rewrite <- E. reflexivity.
   - destruct (starts_with_quote s && last_is s c_quote); [|discriminate]. inversion V as [E]. try rewrite <- E. reflexivity.
@@ -149,29 +149,29 @@ Definition pend_meaning (c : pending) : ustring :=
   match c with PName n => m_name_text n | PStr b => unescape b end.
 Definition pend_wf (c : pending) : Prop :=
   match c with
-  | PName n => mem_N c_hyphen n = false \/ starts_with_quote n = true
+  | PName n => ident_ok n = true \/ starts_with_quote n = true
   | PStr b => lex_body b <> None
   end.
 
-Lemma ma_name_plain : forall n, mem_N c_hyphen n = false \/ starts_with_quote n = true -> ma_name n = m_name_text n.
+Lemma ma_name_plain : forall n, ident_ok n = true \/ starts_with_quote n = true -> ma_name n = m_name_text n.
 Proof.
-  intros n [H|H]; unfold ma_name, quote_if_needed; rewrite H; [reflexivity|]. rewrite andb_false_r. reflexivity.
+  intros n [H|H]; unfold PatternSyntax.ma_name; rewrite quote_if_needed_rep, H; [rewrite andb_false_r|]; reflexivity.
 Qed.
 
-Lemma ma_name_body : forall b, lex_body b <> None -> mem_N c_hyphen b || ident_ok b = true -> ma_name b = unescape b.
+Lemma ma_name_body : forall b, lex_body b <> None -> ma_name b = unescape b.
 Proof.
-  intros b L H. unfold ma_name, quote_if_needed.
-  destruct (mem_N c_hyphen b) eqn:Hh.
-  - rewrite (lex_body_no_quote_start b L). cbn [negb andb app]. apply m_name_text_quoted.
-  - cbn [orb] in H. cbn [andb]. pose proof (ident_chars_plain b H) as P.
+  intros b L. unfold PatternSyntax.ma_name. rewrite quote_if_needed_rep, (lex_body_no_quote_start b L). cbn [negb andb].
+  destruct (ident_ok b) eqn:Hi; cbn [negb].
+  - pose proof (ident_chars_plain b Hi) as P.
     unfold m_name_text. rewrite (plain_no_quote_start b P), (plain_unescape b P). reflexivity.
+  - cbn [List.app]. apply m_name_text_quoted.
 Qed.
 
 Lemma ma_name_strconst : forall b, ma_name (str_const (CString b false)) = unescape b.
 Proof.
-  intros b. unfold str_const, print_string_const. cbn [pr_const text_of flat_map tx]. rewrite app_nil_r.
-  cbn [app]. unfold ma_name, quote_if_needed.
-  change (starts_with_quote (c_quote :: b ++ [c_quote])) with true. rewrite andb_false_r.
+  intros b. unfold PatternSyntax.str_const, print_string_const. cbn [PatternSyntax.pr_const text_of flat_map tx]. rewrite app_nil_r.
+  cbn [List.app]. unfold PatternSyntax.ma_name. rewrite quote_if_needed_rep.
+  change (starts_with_quote (c_quote :: b ++ [c_quote])) with true. cbn [negb andb].
   apply m_name_text_quoted.
 Qed.
 
@@ -183,7 +183,7 @@ Proof.
   destruct k; cbn in Hk; try discriminate.
   - destruct (string_ok_shape s Hok) as [body [E L]]. subst s. rewrite slice_1_m1_quoted.
     split; [exact L|]. cbn [pend_meaning]. symmetry. apply m_name_text_quoted.
-  - split; [|reflexivity]. left. apply plain_no_hyphen, ident_chars_plain. exact Hok.
+  - split; [|reflexivity]. left. exact Hok.
 Qed.
 
 Lemma idx_meaning : forall i, kind_in i [KIntPos; KIntNeg; KASTERISK] = true -> ma_idx (idx_of i) = m_pstep (IndexStep i).
@@ -200,22 +200,22 @@ Lemma comps_meaning : forall l cur, forallb wf_pstep l = true -> pend_wf cur -> 
   flat_map ma_comp (comps cur l) = MKey (pend_meaning cur) :: map m_pstep l.
 Proof.
   fix IH 1. intros l cur Hw Hc Hs.
-  assert (Emit : emit_ok cur = true -> ma_comp (emit cur) = [MKey (pend_meaning cur)]).
-  { intros He. destruct cur as [n|b]; cbn [emit ma_comp pend_meaning].
+  assert (Emit : ma_comp (emit cur) = [MKey (pend_meaning cur)]).
+  { destruct cur as [n|b]; cbn [emit PatternSyntax.ma_comp pend_meaning].
     - rewrite (ma_name_plain n Hc). reflexivity.
-    - rewrite (ma_name_body b Hc He). reflexivity. }
+    - rewrite (ma_name_body b Hc). reflexivity. }
   destruct l as [|s r].
-  - cbn [comps flat_map map]. cbn [comps_sem] in Hs. rewrite (Emit Hs). reflexivity.
+  - cbn [comps flat_map map]. rewrite Emit. reflexivity.
   - cbn [forallb] in Hw. apply andb_true_iff in Hw. destruct Hw as [Hws Hwr].
     destruct s as [n|i].
-    + cbn [comps_sem] in Hs. apply andb_true_iff in Hs. destruct Hs as [He Hs].
+    + cbn [comps_sem] in Hs.
       cbn [wf_pstep] in Hws. destruct (key_pend n Hws) as [Pw Pm].
-      cbn [comps flat_map map]. rewrite (Emit He), (IH r (pend_of_key n) Hwr Pw Hs), Pm. reflexivity.
-    + cbn [comps_sem] in Hs. apply andb_true_iff in Hs. destruct Hs as [Hi Hs].
+      cbn [comps flat_map map]. rewrite Emit, (IH r (pend_of_key n) Hwr Pw Hs), Pm. reflexivity.
+    + cbn [comps_sem] in Hs.
       cbn [wf_pstep] in Hws.
       assert (Name : ma_name (idx_name cur) = pend_meaning cur).
       { destruct cur as [n|b]; cbn [idx_name pend_meaning]; [apply ma_name_plain; exact Hc|apply ma_name_strconst]. }
-      cbn [comps flat_map map ma_comp]. rewrite Name, (idx_meaning i Hws). cbn [app]. f_equal. f_equal.
+      cbn [comps flat_map map PatternSyntax.ma_comp]. rewrite Name, (idx_meaning i Hws). cbn [List.app]. f_equal. f_equal.
       destruct r as [|s' r']; [reflexivity|].
       destruct s' as [n'|i']; [|discriminate Hs].
       cbn [forallb] in Hwr. apply andb_true_iff in Hwr. destruct Hwr as [Hwn Hwr'].
@@ -237,12 +237,12 @@ Lemma path_meaning : forall p, wf_path p = true -> path_sem p = true -> ma_path 
 Proof.
   intros [ty first rest] Hw Hs. unfold wf_path in Hw. cbn [op_type op_first op_rest] in Hw.
   apply andb_true_iff in Hw. destruct Hw as [Hw Hr]. apply andb_true_iff in Hw. destruct Hw as [Hty Hf].
-  unfold ma_path, sv_path_v, m_path, path_sem, path_steps in *. cbn [op_type op_first op_rest ap_type ap_comps] in *.
+  unfold PatternSyntax.ma_path, sv_path_v, m_path, path_sem, path_steps in *. cbn [op_type op_first op_rest ap_type ap_comps] in *.
   assert (Pf : pend_wf (PName (tx first))).
   { unfold kind_in in Hf. apply andb_true_iff in Hf. destruct Hf as [Hk Hok]. destruct first as [k s].
     unfold token_ok in Hok. cbn [tk tx] in *. destruct k; cbn in Hk; try discriminate.
     - right. destruct (string_ok_shape s Hok) as [body [E _]]. subst s. reflexivity.
-    - left. apply plain_no_hyphen, ident_chars_plain. exact Hok. }
+    - left. exact Hok. }
   destruct rest as [c|].
   - rewrite (comps_meaning (opc_steps c) (PName (tx first)) (wf_opc_steps c Hr) Pf Hs), m_opc_steps. reflexivity.
   - rewrite (comps_meaning [] (PName (tx first)) eq_refl Pf Hs). reflexivity.
@@ -253,13 +253,13 @@ Qed.
 
 Lemma sv_lit_not_list : forall t, match sv_lit t with CList _ => False | _ => True end.
 Proof.
-  intros [k s]. unfold sv_lit, visit_terminal. cbn [tk tx].
+  intros [k s]. unfold sv_lit, PatternSyntax.visit_terminal. cbn [tk tx].
   destruct k; try exact I.
   - destruct (py_int s); exact I.
   - destruct (py_int s); exact I.
   - destruct (py_float s); exact I.
   - destruct (py_float s); exact I.
-  - unfold mk_hex_from_tree. destruct (prefixed_body 104 s); [|exact I]. destruct (_ && _); exact I.
+  - unfold PatternSyntax.mk_hex_from_tree. destruct (prefixed_body 104 s); [|exact I]. destruct (_ && _); exact I.
   - unfold mk_binary_from_tree. destruct (prefixed_body 98 s); [|exact I]. destruct (b64_groups _); exact I.
   - destruct (_ && _); exact I.
   - destruct (ustr_eqb s (u "true")); [exact I|]. destruct (ustr_eqb s (u "false")); exact I.
@@ -277,7 +277,7 @@ Lemma ma_mk1 : forall b ops,
   ma (mk1 b ops) = one_or (MBoolOp b) (map ma ops).
 Proof.
   intros b ops H. destruct ops as [|x [|y r]]; [reflexivity|reflexivity|].
-  cbn [mk1 ma map]. f_equal. cbn [splice_first]. destruct (ma x); try reflexivity.
+  cbn [mk1 PatternSyntax.ma map]. f_equal. cbn [splice_first]. destruct (ma x); try reflexivity.
   cbn in H. destruct (Bool.eqb isand b) eqn:E; [|reflexivity]. apply eqb_prop in E. contradiction.
 Qed.
 
@@ -310,7 +310,7 @@ Lemma sv_and_shape_of : forall a, not_boolop_of false (ma (sv_and a)).
 Proof.
   destruct a as [p|l r].
   - apply sv_pt_shape_of.
-  - rewrite sv_and_CAnd. cbn [ma]. discriminate.
+  - rewrite sv_and_CAnd. cbn [PatternSyntax.ma]. discriminate.
 Qed.
 
 Lemma and_ops_shape : forall a, match sv_and_ops a with x :: _ => not_boolop_of true (ma x) | [] => True end.
@@ -330,14 +330,14 @@ Proof.
   - intros p nt op l Hw Hs. cbn [wf_pt sem_pt] in Hw, Hs.
     apply andb_true_iff in Hw. destruct Hw as [Hw Hl]. apply andb_true_iff in Hw. destruct Hw as [Hp Hop].
     apply andb_true_iff in Hs. destruct Hs as [Sp Sl].
-    cbn [sv_pt ma mc_pt]. rewrite (path_meaning p Hp Sp), (lit_meaning l Hl Sl), ma_op_eq_lit, xorb_comm. reflexivity.
+    cbn [sv_pt PatternSyntax.ma mc_pt]. rewrite (path_meaning p Hp Sp), (lit_meaning l Hl Sl), ma_op_eq_lit, xorb_comm. reflexivity.
   - intros p nt op l Hw Hs. cbn [wf_pt sem_pt] in Hw, Hs.
     apply andb_true_iff in Hw. destruct Hw as [Hw Hl]. apply andb_true_iff in Hw. destruct Hw as [Hp Hop].
     apply andb_true_iff in Hs. destruct Hs as [Sp Sl].
-    cbn [sv_pt ma mc_pt]. rewrite (path_meaning p Hp Sp), (lit_meaning l (orderable_primitive l Hl) Sl), order_op_meaning. reflexivity.
+    cbn [sv_pt PatternSyntax.ma mc_pt]. rewrite (path_meaning p Hp Sp), (lit_meaning l (orderable_primitive l Hl) Sl), order_op_meaning. reflexivity.
   - intros p nt es Hw Hs. cbn [wf_pt sem_pt] in Hw, Hs.
     apply andb_true_iff in Hw. destruct Hw as [Hp Hes]. apply andb_true_iff in Hs. destruct Hs as [Sp Ses].
-    cbn [sv_pt ma mc_pt ma_op ma_const]. rewrite (path_meaning p Hp Sp). f_equal. f_equal.
+    cbn [sv_pt PatternSyntax.ma mc_pt ma_op ma_const]. rewrite (path_meaning p Hp Sp). f_equal. f_equal.
     rewrite map_map. clear Hp Sp. induction es as [|x r IH]; [reflexivity|].
     cbn [forallb] in Hes, Ses. apply andb_true_iff in Hes, Ses. destruct Hes as [Hx Hr]. destruct Ses as [Sx Sr].
     cbn [map]. rewrite (lit_meaning x Hx Sx), (IH Hr Sr). reflexivity.
@@ -347,10 +347,10 @@ Proof.
     { apply (kind_in_weaken _ _ _ Hk). intros k. destruct k; cbn; intros E; try discriminate; reflexivity. }
     assert (Sl : lit_sem s = true).
     { destruct (kind_single _ _ Hk) as [Hk1 _]. apply lit_sem_other; rewrite Hk1; discriminate. }
-    cbn [sv_pt ma mc_pt]. rewrite (path_meaning p Hp Hs), (lit_meaning s Hk' Sl).
+    cbn [sv_pt PatternSyntax.ma mc_pt]. rewrite (path_meaning p Hp Hs), (lit_meaning s Hk' Sl).
     assert (O : ma_op (strop_cls o) (sv_lit s) = m_strop o) by (destruct o; reflexivity).
     rewrite O. reflexivity.
-  - intros e IH Hw Hs. cbn [wf_pt sem_pt] in Hw, Hs. cbn [sv_pt ma mc_pt]. f_equal.
+  - intros e IH Hw Hs. cbn [wf_pt sem_pt] in Hw, Hs. cbn [sv_pt PatternSyntax.ma mc_pt]. f_equal.
     rewrite (ma_mk1 false (sv_or_ops e) (or_ops_shape e)), (IH Hw Hs). reflexivity.
   - intros nt p Hw Hs. discriminate Hs.
   - intros p IH Hw Hs. cbn [wf_and sem_and] in Hw, Hs. cbn [sv_and_ops map mc_and_list]. rewrite (IH Hw Hs). reflexivity.
@@ -402,7 +402,7 @@ Lemma ma_compound2 : forall op x y,
              | _ => [ma x; ma y]
              end).
 Proof.
-  intros op x y. cbn [ma map splice_first]. destruct (ma x); try reflexivity.
+  intros op x y. cbn [PatternSyntax.ma map splice_first]. destruct (ma x); try reflexivity.
   destruct op0, op; reflexivity.
 Qed.
 
@@ -454,12 +454,12 @@ Proof.
     + reflexivity.
   - (* ( observation expressions ) *)
     intros e IH Hw Hs. cbn [wf_obs sem_obs] in Hw, Hs. destruct (IH Hw Hs) as [E _].
-    split; [|intros op; exact I]. cbn [sv_obs mc_obs ma]. rewrite E. reflexivity.
+    split; [|intros op; exact I]. cbn [sv_obs mc_obs PatternSyntax.ma]. rewrite E. reflexivity.
   - (* qualified *)
     intros o IH q Hw Hs. cbn [wf_obs sem_obs] in Hw, Hs.
     apply andb_true_iff in Hw, Hs. destruct Hw as [Hwo Hwq]. destruct Hs as [Hso Hsq].
     destruct (IH Hwo Hso) as [E _]. split; [|intros op; exact I].
-    cbn [sv_obs mc_obs ma]. rewrite E, (qual_meaning q Hwq Hsq). reflexivity.
+    cbn [sv_obs mc_obs PatternSyntax.ma]. rewrite E, (qual_meaning q Hwq Hsq). reflexivity.
   - (* AND level *)
     intros o IH Hw Hs. cbn [wf_oand sem_oand] in Hw, Hs. destruct (IH Hw Hs) as [E N].
     cbn [sv_oand mc_oand_list one_or]. split; [exact E|]. split; [discriminate|].
@@ -504,5 +504,5 @@ Theorem visit_preserves_lemma : forall c : pattern, wf c = true -> sem c = true 
   exists a, visit repaired c = Ok a /\ meaning_ast a = meaning_cst c.
 Proof.
   intros c Hw Hs. exists (sv_fb c). split; [apply visit_sv; assumption|].
-  unfold meaning_ast, meaning_cst. apply (proj2 (proj2 (proj2 obs_meaning)) c Hw Hs).
+  unfold PatternSyntax.meaning_ast, meaning_cst. apply (proj2 (proj2 (proj2 obs_meaning)) c Hw Hs).
 Qed.
